@@ -191,6 +191,14 @@ func VF_C03_Map() {
 	if vf.Tier() == 1 {
 		steps = 4
 	}
+	// pre-state: empty, or one with a removed key (a tombstone) next to a live one
+	if vf.Choice("pre", 2) == 1 {
+		_, e1 := m.Put("a", "gone")
+		_, e2 := m.Remove("a")
+		_, e3 := m.Put("b", "kept")
+		vf.Assert(e1 == nil && e2 == nil && e3 == nil, "C03 valid calls succeed")
+		ref["b"] = "kept"
+	}
 	for s := 0; s < steps; s++ {
 		n0, seq0 := pendingOps(m)
 		opid0 := m.GetOpID().Clone()
